@@ -25,7 +25,7 @@ T345 = math.degrees(math.atan2(4.0, 3.0))
 TOL = 1e-9
 WORLD_VEC = ("X", "P", "XC", "XI", "X0")
 WORLD_LIST = ("XS", "PS")
-KINDS = ("grid", "node", "point", "multiple", "divider", "dilate", "subgrid", "migrate")
+KINDS = ("grid", "node", "point", "multiple", "divider", "dilate", "subgrid", "migrate", "history")
 # entry points that must have been exercised (vacuity guard), by case kind
 REQUIRED = {
     "grid": ["M@Grid.getRotation.getMatrixDirect", "MI@Grid.getRotation.getMatrixInverse", "g.x0@DbGrid.getX0s",
@@ -62,6 +62,13 @@ REQUIRED = {
                 "rcsL@DbGrid.locateDataInGrid(list)", "risL@DbGrid.locateDataInGrid(list).centered",
                 "rcsS@DbGrid.locateDataInGrid(useSel)", "risS@DbGrid.locateDataInGrid(useSel).centered",
                 "cellsM@migrate(grid->points,selection)"],
+    # operations asked to an object that has already been asked another one (and that one on a fresh object)
+    "history>divider": ["X0@Grid.divider", "XS@DbGrid.createRefine.getCoordinate", "XS@DbGrid.createDivider.getCoordinate"],
+    "history>multiple": ["X0@Grid.multiple", "XS@DbGrid.createCoarse.getCoordinate"],
+    "history>dilate": ["X0@Grid.dilate"],
+    "history>subgrid": ["XS@DbGrid.createSubGrid.getCoordinate"],
+    "history>node": ["X@Grid.getCoordinate", "rank@Grid.coordinateToRank(X)", "idx@Grid.rankToIndice"],
+    "history>point": ["rc@Grid.coordinateToRank", "ic@Grid.coordinateToIndices", "P@Grid.indicesToCoordinate(cellq,pct)"],
 }
 
 
@@ -161,18 +168,40 @@ class CaseWriter:
     def stable(text):
         return int.from_bytes(hashlib.blake2b(text.encode(), digest_size=6).digest(), "big")
 
-    def emit(self, v):
-        self.ntlc += 1
-        g = v["g"]
-        nd = g["nd"]
-        gkey = json.dumps([g["nd"], g["nx"], g["dx"], g["x0"], g["ang"]], separators=(",", ":"))
+    @staticmethod
+    def convert(v):
+        """Rationals -> floats in one case record (or one operation of a history)."""
         base = dict(v)
-        R = rat({"n": g["n"], "d": g["d"]})
         for k, val in v.items():
             if isinstance(val, dict) and "d" in val and ("n" in val or "ns" in val):
                 base[k] = rat(val)
         if "F" in base:           # a length (i*dx), not a decision: compared as a real
             base["F"] = [float(x) for x in base["F"]]
+        return base
+
+    @staticmethod
+    def rotate(c, Q):
+        """World coordinates of one case record (or one operation of a history) rotated by Q."""
+        for k in WORLD_VEC:
+            if k in c:
+                c[k] = matvec(Q, c[k])
+        for k in WORLD_LIST:
+            if k in c:
+                c[k] = [matvec(Q, p) for p in c[k]]
+        if "M" in c:
+            c["M"] = matmul(Q, c["M"])
+            c["MI"] = matmul(c["MI"], transpose(Q))
+            c["rotated"] = 1
+
+    def emit(self, v):
+        self.ntlc += 1
+        g = v["g"]
+        nd = g["nd"]
+        gkey = json.dumps([g["nd"], g["nx"], g["dx"], g["x0"], g["ang"]], separators=(",", ":"))
+        R = rat({"n": g["n"], "d": g["d"]})
+        base = self.convert(v)
+        if v["k"] == "history":
+            base["seq"] = [self.convert(o) for o in v["seq"]]
         ang = [code_deg(a) for a in g["ang"]]
         if nd == 2:
             ang = [ang[0], 0.0]
@@ -195,17 +224,12 @@ class CaseWriter:
         cg["x0"] = matvec(Q, base["g"]["x0"])
         cg["ang"] = [math.degrees(math.atan2(QR[1][0], QR[0][0])), 0.0] if nd == 2 else euler_zyx(QR)
         c["g"] = cg
-        for k in WORLD_VEC:
-            if k in c:
-                c[k] = matvec(Q, c[k])
-        for k in WORLD_LIST:
-            if k in c:
-                c[k] = [matvec(Q, p) for p in c[k]]
+        self.rotate(c, Q)
+        if "seq" in c:
+            c["seq"] = [dict(o) for o in c["seq"]]
+            for o in c["seq"]:
+                self.rotate(o, Q)
         c["R"] = QR
-        if "M" in c:
-            c["M"] = matmul(Q, c["M"])
-            c["MI"] = matmul(c["MI"], transpose(Q))
-            c["rotated"] = 1
         c["conj"] = 1
         self.write(c, self.stable(gkey + "|1"))
         self.nconj += 1
@@ -425,14 +449,67 @@ def migrate_votes(args):
     return votes
 
 
+def judge(c, o, after, prefix, conv, matcher, out, whole):
+    """Compares what the library answered (o) for one case / one operation of a history (c)."""
+    k = c["k"]
+    attrs = dict(describe(c), after=after)
+    bad = []          # (api key, observed, expected)
+    if "crash" in o or "exception" in o:
+        bad.append(("crash@" + k, o.get("crash", o.get("exception")), None))
+    for key, obs in o.items():
+        if key in ("id", "crash", "exception", "line"):
+            continue
+        q, _, api = key.partition("@")
+        if q == "null":
+            bad.append((key, "null pointer returned", None))
+            continue
+        if q == "cells":
+            exp, ok = c[conv], True
+        elif q == "cellsM":
+            exp, ok = c[conv + "M"], True
+        else:
+            exp, ok = lookup(c, q)
+        if not ok:
+            return "grid_run key %s has no counterpart in the %s case" % (key, k)
+        out["api"][prefix + k + ":" + key] += 1
+        out["values"] += count_values(exp)
+        if not same(obs, exp):
+            bad.append((key, obs, exp))
+    if not bad:
+        if len(out["samples"]) < 2 and (prefix or k in ("node", "point", "multiple")) and c["g"]["nd"] > 1 and c["id"] % 7 == 0:
+            out["samples"].append({"case": {f: whole[f] for f in whole if f not in ("XS", "PS", "gid", "zero", "one", "R")}
+                                   if not prefix else {"history": [p["k"] for p in whole["seq"]], "g": whole["g"],
+                                                       "last operation": {f: c[f] for f in c if f not in ("XS", "g", "R")}},
+                                   "observed": {f: o[f] for f in list(o)[:8]}})
+        return None
+    # partition the failing entry points into known findings and the rest
+    groups = {}
+    for key, obs, exp in bad:
+        q, _, api = key.partition("@")
+        rec = dict(attrs, quantity=q, api=api, signature=signature(c, q, obs, exp),
+                   through_derived_angles=through_angles(c, api))
+        kf = Check.known_match(matcher, rec)
+        groups.setdefault(kf["id"] if kf else None, []).append((rec, key, obs, exp))
+    for fid, items in groups.items():
+        rec = dict(items[0][0])
+        rec["apis"] = sorted(set(i[0]["api"] for i in items))
+        replay = None
+        if fid is None and out["nreplay"] < 25:
+            out["nreplay"] += 1
+            replay = {"case": whole,
+                      "failing": [{"key": key, "observed": obs, "expected": exp} for _, key, obs, exp in items[:12]],
+                      "how": "write the object 'case' on one line of a file F and run: .build/bin/grid_run F out.ndjson"}
+        out["dis"].append((whole["id"], rec, replay))
+    return None
+
+
 def compare_shard(args):
     """Lock-step comparison of the cases of one shard and of what the library answered.
     Returns the disagreements [(case id, rec, replay or None)] and the counters."""
     casep, obsp, conv, known = args
     matcher = types.SimpleNamespace(known=known)
     out = {"dis": [], "api": collections.Counter(), "kind": collections.Counter(), "values": 0, "cases": 0, "rot": 0,
-           "samples": [], "error": None}
-    nreplay = 0
+           "samples": [], "error": None, "nreplay": 0}
     with open(casep) as fc, open(obsp) as fo:
         for lc in fc:
             lo = fo.readline()
@@ -446,55 +523,26 @@ def compare_shard(args):
             k = c["k"]
             out["kind"][k] += 1
             out["cases"] += 1
-            attrs = describe(c)
-            if attrs["rotated"]:
+            if bool(c["rotated0"]) or bool(c["conj"]):
                 out["rot"] += 1
-            bad = []          # (api key, observed, expected)
-            if "crash" in o or "exception" in o:
-                bad.append(("crash@" + k, o.get("crash", o.get("exception")), None))
-            for key, obs in o.items():
-                if key in ("id", "crash", "exception", "line"):
-                    continue
-                q, _, api = key.partition("@")
-                if q == "null":
-                    bad.append((key, "null pointer returned", None))
-                    continue
-                if q == "cells":
-                    exp, ok = c[conv], True
-                elif q == "cellsM":
-                    exp, ok = c[conv + "M"], True
-                else:
-                    exp, ok = lookup(c, q)
-                if not ok:
-                    out["error"] = "grid_run key %s has no counterpart in the %s case" % (key, k)
+            if k == "history":
+                # every operation of the history is judged as the same operation on a fresh object
+                steps = o.get("steps", [])
+                units = []
+                for i, op in enumerate(c["seq"]):
+                    sub = dict(op, g=c["g"], R=c["R"], rotated0=c["rotated0"], conj=c["conj"], zero=0, one=1, id=c["id"])
+                    ob = steps[i] if i < len(steps) else {"id": c["id"], "crash": o.get("crash", "missing")}
+                    after = "+".join(p["k"] for p in c["seq"][:i]) or "fresh object"
+                    units.append((sub, ob, after, "history>"))
+                if "crash" in o and len(steps) >= len(c["seq"]):
+                    units.append((dict(c, k="history"), {"id": c["id"], "crash": o["crash"]}, "all", "history>"))
+            else:
+                units = [(c, o, "cached object (uncontrolled)", "")]
+            for sub, ob, after, prefix in units:
+                err = judge(sub, ob, after, prefix, conv, matcher, out, c)
+                if err:
+                    out["error"] = err
                     return out
-                out["api"][k + ":" + key] += 1
-                out["values"] += count_values(exp)
-                if not same(obs, exp):
-                    bad.append((key, obs, exp))
-            if not bad:
-                if len(out["samples"]) < 2 and k in ("node", "point", "multiple") and c["g"]["nd"] > 1 and c["id"] % 7 == 0:
-                    out["samples"].append({"case": {f: c[f] for f in c if f not in ("XS", "PS", "gid", "zero", "one", "R")},
-                                           "observed": {f: o[f] for f in list(o)[:8]}})
-                continue
-            # partition the failing entry points of this case into known findings and the rest
-            groups = {}
-            for key, obs, exp in bad:
-                q, _, api = key.partition("@")
-                rec = dict(attrs, quantity=q, api=api, signature=signature(c, q, obs, exp),
-                           through_derived_angles=through_angles(c, api))
-                kf = Check.known_match(matcher, rec)
-                groups.setdefault(kf["id"] if kf else None, []).append((rec, key, obs, exp))
-            for fid, items in groups.items():
-                rec = dict(items[0][0])
-                rec["apis"] = sorted(set(i[0]["api"] for i in items))
-                replay = None
-                if fid is None and nreplay < 25:
-                    nreplay += 1
-                    replay = {"case": c,
-                              "failing": [{"key": key, "observed": obs, "expected": exp} for _, key, obs, exp in items[:12]],
-                              "how": "write the object 'case' on one line of a file F and run: .build/bin/grid_run F out.ndjson"}
-                out["dis"].append((c["id"], rec, replay))
         if fo.readline():
             out["error"] = "grid_run produced more lines than cases"
     return out
